@@ -404,12 +404,15 @@ func (r *Reconciler) reconcileAbort(ctx context.Context, proposal *configapi.Pro
 			if err := r.updateProposalStatus(ctx, proposal); err != nil {
 				return controller.Result{}, err
 			}
+			return requeueNext(proposal), nil
 		} else if config.Status.Committed.Index == proposal.Status.PrevIndex {
 			config.Status.Committed.Index = proposal.TransactionIndex
 			if err := r.configurations.UpdateStatus(ctx, config); err != nil {
 				log.Warnf("Failed reconciling Transaction %d Proposal to target '%s'", proposal.TransactionIndex, proposal.TargetID, err)
 				return controller.Result{}, err
 			}
+			// The next proposal can be validated now
+			return requeueNext(proposal), nil
 		} else if config.Status.Applied.Index == proposal.Status.PrevIndex &&
 			config.Status.Committed.Index >= proposal.TransactionIndex {
 			config.Status.Applied.Index = proposal.TransactionIndex
@@ -422,11 +425,28 @@ func (r *Reconciler) reconcileAbort(ctx context.Context, proposal *configapi.Pro
 			if err := r.updateProposalStatus(ctx, proposal); err != nil {
 				return controller.Result{}, err
 			}
-			return controller.Result{}, nil
+			return requeueNext(proposal), nil
 		}
 
+		// If the previous proposal has not yet been applied, wait for it, making sure it is reconciled as the
+		// other phases do.
+		if proposal.Status.PrevIndex != 0 && config.Status.Applied.Index < proposal.Status.PrevIndex {
+			return controller.Result{Requeue: controller.NewID(proposalstore.NewID(proposal.TargetID, proposal.Status.PrevIndex))}, nil
+		}
+	case configapi.ProposalAbortPhase_ABORTED:
+		return requeueNext(proposal), nil
 	}
 	return controller.Result{}, nil
+}
+
+// requeueNext requeues the next proposal of the target, if any, like the COMMITTED and APPLIED states do
+func requeueNext(proposal *configapi.Proposal) controller.Result {
+	if proposal.Status.NextIndex != 0 {
+		return controller.Result{
+			Requeue: controller.NewID(proposalstore.NewID(proposal.TargetID, proposal.Status.NextIndex)),
+		}
+	}
+	return controller.Result{}
 }
 
 func (r *Reconciler) reconcileCommit(ctx context.Context, proposal *configapi.Proposal) (controller.Result, error) {
